@@ -12,7 +12,7 @@ pub fn opt_op(level: &str, prog: &str) -> String {
     let level: u8 = level.parse().unwrap();
     match optimize::optimize(dec_prog(prog), level) {
         Ok((mut st, code)) => format!("ok {}", enc_opt_result(&mut st, &code)),
-        Err(e) => format!("err {}", enc_text(&e.get_msg())),
+        Err(e) => crate::exec::enc_err(&e),
     }
 }
 
@@ -23,7 +23,7 @@ pub fn compile_op(level: &str, prog: &str) -> String {
     if level >= 1 {
         match optimize::optimize(code, level) {
             Ok((st, c)) => format!("ok {}", enc_text(&compile::build_source(st, &c, level))),
-            Err(e) => format!("err {}", enc_text(&e.get_msg())),
+            Err(e) => crate::exec::enc_err(&e),
         }
     } else {
         format!("ok {}", enc_text(&compile::build_source(UnOptState::new(), &code, level)))
@@ -44,7 +44,7 @@ pub fn optpure(file: &str) {
         let r = optimize::optimize(dec_prog(f[1]), f[0].parse().unwrap());
         match r {
             Ok((mut st, code)) => println!("END {} ok {}", i, enc_opt_result(&mut st, &code)),
-            Err(e) => println!("END {} err {}", i, enc_text(&e.get_msg())),
+            Err(e) => println!("END {} {}", i, crate::exec::enc_err(&e)),
         }
     }
     let mut rest = Vec::new();
